@@ -1,6 +1,7 @@
 package core
 
 import (
+	"errors"
 	"fmt"
 	"slices"
 	"sync"
@@ -9,6 +10,7 @@ import (
 	"github.com/nspcc-dev/neo-go/pkg/config"
 	"github.com/nspcc-dev/neo-go/pkg/core/block"
 	"github.com/nspcc-dev/neo-go/pkg/core/dao"
+	"github.com/nspcc-dev/neo-go/pkg/core/storage"
 	"github.com/nspcc-dev/neo-go/pkg/util"
 )
 
@@ -79,16 +81,18 @@ func (h *HeaderHashes) init(dao *dao.Simple, trusted config.HashIndex) error {
 	h.dao = dao
 	h.cache, _ = lru.New[uint32, []util.Uint256](pagesCache) // Never errors for positive size.
 	h.storedHeaderCount = ((currHeaderHeight + 1) / headerBatchCount) * headerBatchCount
-	missingHeaderCount := ((trusted.Index + 1) / headerBatchCount) * headerBatchCount
-	if h.storedHeaderCount >= headerBatchCount &&
-		((h.storedHeaderCount > missingHeaderCount && h.storedHeaderCount-missingHeaderCount >= headerBatchCount) ||
-			currHeaderHeight%headerBatchCount != trusted.Index%headerBatchCount) {
-		h.previous, err = h.dao.GetHeaderHashes(h.storedHeaderCount - headerBatchCount)
-		if err != nil {
-			return fmt.Errorf("failed to retrieve header hash page %d: %w; stored: %d, missing: %d, trusted: %d, curr: %d", h.storedHeaderCount-headerBatchCount, err, h.storedHeaderCount, missingHeaderCount, trusted.Index, currHeaderHeight)
+	h.previous = make([]util.Uint256, headerBatchCount)
+	if h.storedHeaderCount >= headerBatchCount {
+		previous, err := h.dao.GetHeaderHashes(h.storedHeaderCount - headerBatchCount)
+		switch {
+		case err == nil:
+			h.previous = previous
+		case errors.Is(err, storage.ErrKeyNotFound) && h.storedHeaderCount <= trusted.Index:
+			// The whole page lies below the trusted header. A node that has started
+			// from the trusted header has never had these hashes and does not need them.
+		default:
+			return fmt.Errorf("failed to retrieve header hash page %d: %w; stored: %d, trusted: %d, curr: %d", h.storedHeaderCount-headerBatchCount, err, h.storedHeaderCount, trusted.Index, currHeaderHeight)
 		}
-	} else {
-		h.previous = make([]util.Uint256, headerBatchCount)
 	}
 	h.latest = make([]util.Uint256, 0, headerBatchCount)
 
@@ -104,7 +108,7 @@ func (h *HeaderHashes) init(dao *dao.Simple, trusted config.HashIndex) error {
 		if h.storedHeaderCount >= headerBatchCount {
 			targetHash = h.previous[len(h.previous)-1]
 		}
-		if targetHash.Equals(util.Uint256{}) && trusted.Index > 0 {
+		if targetHash.Equals(util.Uint256{}) && trusted.Index > 0 && trusted.Index >= h.storedHeaderCount {
 			// Don't retrieve header hashes prior to trusted header (if set) since sometimes
 			// these blocks may be missing from the storage (if previously node was started
 			// from existing DB with some trusted point higher than header height). These hashes
@@ -124,7 +128,8 @@ func (h *HeaderHashes) init(dao *dao.Simple, trusted config.HashIndex) error {
 		}
 		slices.Reverse(headers)
 		if padLeft {
-			h.latest = h.latest[:currHeaderHeight-uint32(len(headers))]
+			// Zero hashes for the headers of the current batch below the trusted one.
+			h.latest = h.latest[:trusted.Index-h.storedHeaderCount]
 			h.latest = append(h.latest, trusted.Hash)
 		}
 		h.latest = append(h.latest, headers...)
